@@ -25,6 +25,7 @@ type JobResult struct {
 	Data    json.RawMessage `json:"data,omitempty"`
 	Err     string          `json:"err,omitempty"`
 	Crashed bool            `json:"crashed,omitempty"`
+	Skipped bool            `json:"skipped,omitempty"` // not started because the pool deadline had passed
 	Timeout bool            `json:"timeout,omitempty"`
 	Stderr  string          `json:"stderr,omitempty"`
 }
@@ -64,7 +65,8 @@ type Pool struct {
 	JobTimeout time.Duration
 	Recycle    int // jobs per worker process before it is replaced
 	Env        []string
-	Exe        string // worker executable (default: this executable)
+	Exe        string    // worker executable (default: this executable)
+	Deadline   time.Time // when set: jobs not yet started at this time are skipped
 }
 
 func NewPool() *Pool {
@@ -185,6 +187,10 @@ func (p *Pool) Run(jobs []Job) []JobResult {
 				mu.Unlock()
 				if j >= len(jobs) {
 					return
+				}
+				if !p.Deadline.IsZero() && time.Now().After(p.Deadline) {
+					results[j] = JobResult{Skipped: true}
+					continue
 				}
 				if w == nil {
 					var err error
